@@ -163,7 +163,14 @@ pub mod strext {
     pub open spec fn replace_str_spec(s: Seq<char>, p: Seq<char>, rep: Seq<char>) -> Seq<char> decreases s.len() {
         if s.len() == 0 || p.len() == 0 { s } else if has_prefix(s, p) { rep + replace_str_spec(s.skip(p.len() as int), p, rep) }
         else { seq![s[0]] + replace_str_spec(s.skip(1), p, rep) } }
+    pub open spec fn has_infix(s: Seq<char>, p: Seq<char>) -> bool { exists|i: int| 0 <= i <= s.len() - p.len() && #[trigger] s.subrange(i, i + p.len()) == p }
     pub trait StrExt {
+        fn starts_with_str(&self, p: &str) -> bool;
+        fn starts_with_char(&self, c: char) -> bool;
+        fn ends_with_str(&self, p: &str) -> bool;
+        fn ends_with_char(&self, c: char) -> bool;
+        fn contains_str(&self, p: &str) -> bool;
+        fn contains_char(&self, c: char) -> bool;
         fn replace_chars(&self, set: &[char], rep: &str) -> String;
         fn replace_char(&self, c: char, rep: &str) -> String;
         fn replace_str(&self, p: &str, rep: &str) -> String;
@@ -177,6 +184,12 @@ pub mod strext {
         fn strip_suffix_char(&self, c: char) -> Option<&str>;
     }
     impl StrExt for str {
+        #[verifier::external_body] fn starts_with_str(&self, p: &str) -> (r: bool) ensures r == has_prefix(self@, p@) { self.starts_with(p) }
+        #[verifier::external_body] fn starts_with_char(&self, c: char) -> (r: bool) ensures r == (self@.len() > 0 && self@[0] == c) { self.starts_with(c) }
+        #[verifier::external_body] fn ends_with_str(&self, p: &str) -> (r: bool) ensures r == has_suffix(self@, p@) { self.ends_with(p) }
+        #[verifier::external_body] fn ends_with_char(&self, c: char) -> (r: bool) ensures r == (self@.len() > 0 && self@.last() == c) { self.ends_with(c) }
+        #[verifier::external_body] fn contains_str(&self, p: &str) -> (r: bool) ensures r == has_infix(self@, p@) { self.contains(p) }
+        #[verifier::external_body] fn contains_char(&self, c: char) -> (r: bool) ensures r == self@.contains(c) { self.contains(c) }
         #[verifier::external_body] fn replace_chars(&self, set: &[char], rep: &str) -> (r: String) ensures r@ == replace_chars_spec(self@, set@, rep@) { self.replace(set, rep) }
         #[verifier::external_body] fn replace_char(&self, c: char, rep: &str) -> (r: String) ensures r@ == replace_chars_spec(self@, seq![c], rep@) { self.replace(c, rep) }
         #[verifier::external_body] fn replace_str(&self, p: &str, rep: &str) -> (r: String) ensures p@.len() > 0 ==> r@ == replace_str_spec(self@, p@, rep@) { self.replace(p, rep) }
@@ -196,6 +209,11 @@ pub mod strext {
     }
 }
 pub use crate::strext::StrExt;
+verus! {
+// Result::or(res): the argument has been evaluated already (it is a value, not a closure)
+pub assume_specification<T, E, F> [std::result::Result::<T, E>::or::<F>] (a: std::result::Result<T, E>, b: std::result::Result<T, F>) -> (r: std::result::Result<T, F>)
+    ensures r == (match a { Ok(v) => Ok::<T, F>(v), Err(_) => b });
+}
 pub mod optext {
     use vstd::prelude::*;
     verus! {
